@@ -3,15 +3,23 @@ import itertools
 
 from ..coqeval import term, Raw, Nat, eval_checks
 
-RULE = ("genotypes: every multiset of ploidy 0..6 over alleles 0..5 (each also in a shuffled order), every index "
-        "0..C(n+p-1,p)-1 for those (ploidy, alleles) restored through __setstate__, all ordered pairs of genotypes of "
-        "small sizes (incl. different ploidies) for ==, !=, <, seeded samples up to the limits (ploidy 14, 16 alleles) in "
-        "both directions, binomial_coefficient(n,k) for all -2<=n<=29, -2<=k<=n+2, and a malformed stream (ploidy >= 15, "
-        "allele >= 16) compared on the error class; edit distance: all ordered pairs of strings of length <= 4 (quick) / "
-        "5 (thorough) over a 3-letter alphabet with every band -1..6 (-1 = no band, the API's default), seeded random longer "
-        "strings (related by few edits and unrelated) with bands around the true distance, every call of both streams made for all four argument-type combinations str/str, bytes/bytes, str/bytes, bytes/str, and a small "
-        "non-ASCII stream. Non-trivial: genotype with ploidy >= 2 and >= 2 distinct alleles / index > 0 / pair of distinct "
-        "genotypes / 0 < k < n; string pair with both strings non-empty and different. distinct = distinct input.")
+RULE = ("genotypes: every multiset of ploidy 0..6 over alleles 0..5 (sorted, reversed and shuffled argument order; list / "
+        "tuple / generator / numpy-array arguments), every index 0..C(n+p-1,p)-1 for those (ploidy, alleles) restored through "
+        "__setstate__ on a fresh object, the indices around every boundary C(p+a-1,p) up to the limits, histories that reuse one "
+        "object for many __setstate__ calls (tuple and list states, object initially empty or not), all ordered pairs of "
+        "genotypes of small sizes (incl. different ploidies, the same object, adjacent indices) for ==, !=, <, plus sorted() / "
+        "min / max / set / dict over shuffled collections with duplicates, seeded samples up to the limits (ploidy 14, 16 "
+        "alleles) in both directions, binomial_coefficient(n,k) for all -2<=n<=29, -2<=k<=n+2, the pickle/copy protocols (also "
+        "inside containers and after a history), and a malformed stream (ploidy >= 15, allele >= 16) compared on the error "
+        "class; edit distance: all ordered pairs of strings of length <= 4 (quick) / 5 (thorough) over a 3-letter alphabet with "
+        "every band -1..6 and the default argument (a fifth of the pairs also with -2 and -5), seeded random longer strings "
+        "(related by few edits, unrelated, common prefix/suffix around a difference; band positional or by keyword) with bands "
+        "around the true distance and around the length difference, every call of both streams made for all four "
+        "argument-type combinations str/str, bytes/bytes, str/bytes, bytes/str; bytes over {0x00,0x41,0x80,0xff}; a few long "
+        "strings; bands up to INT_MAX; a small non-ASCII str stream. Implementation calls run in a forked child: an exception "
+        "on a well-formed input or a dying child is reported as a violation with the input as replay. Non-trivial: genotype "
+        "with ploidy >= 2 and >= 2 distinct alleles / index > 0 / pair of distinct genotypes / 0 < k < n; string pair with both "
+        "strings non-empty and different. distinct = distinct input.")
 TRUSTED = [
     "modelled, not verified: C++ uint32_t/uint64_t/int arithmetic as Z with explicit reductions (signed overflow = two's "
     "complement wrap, proved unreachable within the limits), std::sort as insertion sort, std::vector as list, the 4-bit "
@@ -32,6 +40,9 @@ ASSUMPTIONS = [
     "proved equal to it within the limits above",
     "edit distance theorems: strings are sequences over a type with decidable equality (bytes in the code); the model "
     "reads str arguments as their UTF-8 bytes with m = len(bytes), which matches the code for ASCII text and bytes",
+    "the band of the model is an unbounded natural number; the code computes j + maxdiff + 1 in a C int, so the banded "
+    "theorem speaks about the code only while that sum stays below 2^31 (the huge-band stream evaluates the specification "
+    "side only and reports the overflow as editdist:band-int-overflow)",
 ]
 
 HEADER = """From Coq Require Import ZArith List Bool Arith.
